@@ -303,3 +303,70 @@ def run(ctx, prefix, mods, floors=None):
     rule_loop_totality(ctx, prefix + "t", mods, floors.get("t"))
     rule_whole_sources(ctx, prefix + "w", mods, floors.get("w"))
     rule_errors_surface(ctx, prefix + "e", mods, floors.get("e"))
+    rule_store_purity(ctx, prefix + "s", mods, floors.get("s"))
+    rule_no_shrink(ctx, prefix + "k", mods)
+
+
+MEMBER = re.compile(r"(HashMap|BTreeMap|HashSet|BTreeSet|SlotMap)::<.*>::(contains_key|contains|get|get_mut|entry|insert|remove)$|Entry::<|Entry<")
+SHRINK = re.compile(r"Vec::<.*>::(pop|truncate|remove|swap_remove|drain|retain|dedup\w*|clear|split_off)$")
+
+
+def rule_store_purity(ctx, rid, mods, floor=None):
+    """whether a converter stores something is decided by kind / Option dispatch, error propagation, loops, and membership
+    tests on a map or set (group-by, import-once) - not by comparing values or consulting what was stored before"""
+    F = ctx.F
+    ctx.rule(rid, "every store (push / insert / extend) in a converter is control dependent only on kind / Option dispatch, loops, `?`, and membership tests of a map or set (the group-by and import-once idioms): a comparison or a scan of earlier results deciding a store duplicates or drops items for some inputs")
+    n = 0
+    for f in _fns(F, mods, skip=("DepOrder",)):
+        if "DepOrder" in f.short:
+            continue
+        b = Body(f)
+        for bi, t in b.calls():
+            nm = callee_name(t) or ""
+            if not STORE.search(nm):
+                continue
+            n += 1
+            bad = []
+            for sw in sorted(ctrl.controlling_switches(b, bi)):
+                c = ctrl.classify_switch(b, sw)
+                if c[0] in ("try", "next", "discr"):
+                    continue
+                if c[0] in ("callres", "call") and (MEMBER.search(c[1] or "") or STEP.search(c[1] or "")):
+                    continue
+                if c[0] == "call" and re.search(r"::(is_some|is_none|is_empty|is_ok|is_err)$", c[1] or ""):
+                    continue
+                bad.append(_describe(c))
+            for d in sorted(set(bad)):
+                key = "%s/%s/%s" % (f.short, nm.split("::")[-1], d)
+                if key in AUDIT.get("stores", {}):
+                    ctx.ok(rid, key, "audited: " + AUDIT["stores"][key])
+                else:
+                    ctx.violation(rid, key, "%s: whether this %s happens is decided by %s: a store that depends on a comparison or on what was stored earlier duplicates or drops items for some inputs (e.g. groups that are revisited, items that look alike)" % (f.short, nm.split("::")[-1], d), b.site(bi), key)
+            if not bad:
+                ctx.ok(rid, "%s/%s@%d" % (f.short, nm.split("::")[-1], bi), "dispatch / membership only")
+    if floor:
+        ctx.floor(rid, "store_sites", n, floor)
+
+
+def rule_no_shrink(ctx, rid, mods):
+    """what a converter has converted stays converted: no pop / truncate / remove / retain / dedup on model collections"""
+    from analysis.nondet import receiver_fields
+    F = ctx.F
+    ctx.rule(rid, "a converter never shrinks a collection of model data (pop / truncate / remove / retain / dedup / drain / clear); the error-context stack is exempt; the one place GDSII requires it (the repeated closing point of a boundary) is audited")
+    n = 0
+    for f in _fns(F, mods):
+        b = Body(f)
+        for bi, t in b.calls():
+            nm = callee_name(t) or ""
+            if not SHRINK.search(nm) or not t["args"]:
+                continue
+            fl = receiver_fields(b, t["args"][0])
+            if fl and fl[-1] == "ctx":
+                continue
+            n += 1
+            key = "%s/%s" % (f.short if f.kind != "Closure" else re.sub(r"::\{closure#\d+\}", "", f.short), nm.split("::")[-1])
+            if key in AUDIT.get("shrink", {}):
+                ctx.ok(rid, key, "audited: " + AUDIT["shrink"][key])
+            else:
+                ctx.violation(rid, key, "%s removes elements (%s) from a collection of converted data: part of the source model does not reach the output" % (f.short, nm.split("::")[-1]), b.site(bi), key)
+    ctx.count(rid + "_shrinking_calls", n)
